@@ -87,6 +87,8 @@ def run(ctx):
     # ---- document level
     base = list(vlib.BASE_DOCS) + [vlib.rand_doc(ctx.rng, 3) for _ in range(150 if ctx.tier == "quick" else 1500)]
     base = [d for d in base if vlib.nodup_doc(d)]
+    fams = {k: list(dict.fromkeys(doc_str(d) for d in f)) for k, f in vlib.scale_families().items()}
+    base += [d for f in vlib.scale_families().values() for d in f]          # scale / rare-feature stream, appended last
     bs = list(dict.fromkeys(doc_str(d) for d in base))
     single = dict(zip(bs, ctx.impl(["infer_text\t" + d for d in bs])))
     ls = []
@@ -105,6 +107,7 @@ def run(ctx):
     # pairs: order-insensitive; wrapped pairs: object member / array element structure
     bsub = bs[: (70 if ctx.tier == "quick" else 200)]
     pairs = [(d, e) for d in bsub for e in bsub if d < e]
+    pairs += [(d, e) for f in fams.values() for d in f for e in f if d < e]  # related wide / deep documents
     ls = []
     for d, e in pairs:
         ls += ["from_sources\t%s\t%s" % (d, e), "from_sources\t%s\t%s" % (e, d),
